@@ -78,6 +78,14 @@ type fitGuard struct {
 // fitGuards finds, in fn, the tests that reject a row narrower than the column
 // list (rows derived from `rows`) and a key position beyond it.
 func fitGuards(fn *ssa.Function, rows map[ssa.Value]bool, columns, pk *types.Var) []fitGuard {
+	return fitGuardsX(fn, rows, func(v ssa.Value) bool {
+		x := lenArgOf(v)
+		return x != nil && derivesFromField(x, columns)
+	}, func(v ssa.Value) bool { return derivesFromField(v, pk) })
+}
+
+// fitGuardsX: like fitGuards with the "number of columns" and "key position" notions supplied.
+func fitGuardsX(fn *ssa.Function, rows map[ssa.Value]bool, isCols func(ssa.Value) bool, isKeyPos func(ssa.Value) bool) []fitGuard {
 	var out []fitGuard
 	for _, b := range fn.Blocks {
 		if len(b.Instrs) == 0 {
@@ -99,10 +107,6 @@ func fitGuards(fn *ssa.Function, rows map[ssa.Value]bool, columns, pk *types.Var
 		// normalise to  a OP len(columns)
 		op := bo.Op
 		a, c := bo.X, bo.Y
-		isCols := func(v ssa.Value) bool {
-			x := lenArgOf(v)
-			return x != nil && derivesFromField(x, columns)
-		}
 		if !isCols(c) {
 			if !isCols(a) {
 				continue
@@ -126,7 +130,7 @@ func fitGuards(fn *ssa.Function, rows map[ssa.Value]bool, columns, pk *types.Var
 			out = append(out, fitGuard{ifi, "width"})
 			continue
 		}
-		if rejectsGeq && derivesFromField(a, pk) {
+		if rejectsGeq && isKeyPos(a) {
 			out = append(out, fitGuard{ifi, "key"})
 		}
 	}
@@ -195,7 +199,17 @@ func init() {
 			var deferred []pending
 			for _, fn := range sortedFuncs(reach) {
 				gbs := callsTo(fn, getBlock)
-				sinks := callsTo(fn, sinksSet)
+				// positional uses: direct, or inside a helper of the package that is handed the row
+				effs := effSites(p, fn, sinksSet, inlineDepth)
+				var sinks []ssa.CallInstruction
+				innerOf := map[ssa.CallInstruction]ssa.CallInstruction{}
+				for _, e := range effs {
+					if _, dup := innerOf[e.site]; dup {
+						continue
+					}
+					innerOf[e.site] = e.inner
+					sinks = append(sinks, e.site)
+				}
 				if len(gbs) == 0 || len(sinks) == 0 {
 					continue
 				}
@@ -213,6 +227,82 @@ func init() {
 				var widthH, keyH []*ssa.BasicBlock
 				var widthG, keyG []fitGuard
 				var whyNot []string
+				// validating helpers of the package: a call whose success implies the width / key test
+				var widthCalls, keyCalls []*ssa.Call
+				eachCall(fn, func(hc ssa.CallInstruction) {
+					call, ok := hc.(*ssa.Call)
+					if !ok {
+						return
+					}
+					h := call.Call.StaticCallee()
+					if h == nil || len(h.Blocks) == 0 || fnPkgPath(h) != fnPkgPath(fn) || errorResultIndex(h.Signature) < 0 {
+						return
+					}
+					args := call.Call.Args
+					hRows := map[ssa.Value]bool{}
+					var colParams, pkParams []ssa.Value
+					for ai, a := range args {
+						if ai >= len(h.Params) {
+							continue
+						}
+						if derivesFromValue(a, rows) {
+							hRows[h.Params[ai]] = true
+						}
+						if x := lenArgOf(a); x != nil && derivesFromField(x, columns) {
+							colParams = append(colParams, h.Params[ai])
+						}
+						if derivesFromField(a, pk) {
+							pkParams = append(pkParams, h.Params[ai])
+						}
+					}
+					if len(colParams) == 0 {
+						return
+					}
+					isColsH := func(v ssa.Value) bool {
+						v = stripConv(v)
+						for _, cp := range colParams {
+							if v == cp {
+								return true
+							}
+						}
+						return false
+					}
+					isKeyH := func(v ssa.Value) bool {
+						for x := range backward(v, nil) {
+							for _, pp := range pkParams {
+								if x == pp {
+									return true
+								}
+							}
+						}
+						return false
+					}
+					hei := errorResultIndex(h.Signature)
+					for _, g := range fitGuardsX(h, hRows, isColsH, isKeyH) {
+						hh, _ := guardCoversAll(h, g)
+						if hh == nil {
+							continue
+						}
+						// every successful return of the helper lies behind the loop
+						okAll := true
+						for _, ret := range returnsOf(h) {
+							if v := retVal(ret, hei); v != nil && (definitelyNonNilError(v) || nonNilByGuard(h, ret, v)) {
+								continue
+							}
+							if _, reach := reachAfter(h, nil, ret, nil, map[ssa.Instruction]bool{hh.Instrs[0]: true}); reach {
+								okAll = false
+							}
+						}
+						if !okAll {
+							continue
+						}
+						if g.kind == "width" {
+							widthCalls = append(widthCalls, call)
+						} else {
+							keyCalls = append(keyCalls, call)
+						}
+					}
+				})
 				for _, g := range guards {
 					h, why := guardCoversAll(fn, g)
 					if h == nil {
@@ -238,10 +328,19 @@ func init() {
 							usesPK = true
 						}
 					}
-					if f := calleeFunc(s); f != nil && f.Name() == "Process" {
+					if f := calleeFunc(innerOf[s]); f != nil && f.Name() == "Process" {
 						usesRows = true // row[i] for every column
 					}
 					check := func(kind string, hs []*ssa.BasicBlock, gs []fitGuard, from ssa.Instruction) (bool, string) {
+						calls := widthCalls
+						if kind == "key-position" {
+							calls = keyCalls
+						}
+						for _, cg := range calls {
+							if orderedAfterSuccess(fn, cg, s, errorResultIndex(fn.Signature)) {
+								return true, ""
+							}
+						}
 						for i, h := range hs {
 							body := loopBody(h)
 							if body[s.Block()] {
@@ -281,7 +380,7 @@ func init() {
 					allOK = false
 					deferred = append(deferred, pending{fn, s, joinNonEmpty("; ", append(missing, whyNot...)...)})
 				}
-				if allOK && len(widthH) > 0 && len(keyH) > 0 {
+				if allOK && (len(widthH) > 0 || len(widthCalls) > 0) && (len(keyH) > 0 || len(keyCalls) > 0) {
 					if fn.Object() != nil {
 						if f, ok := fn.Object().(*types.Func); ok {
 							validating[f] = true
